@@ -90,6 +90,8 @@ type Ctx struct {
 	boolSum   map[string][]Cred
 	boolSumOK map[string]bool
 	edgeBusy  map[[2]*ssa.BasicBlock]bool
+
+	condReported map[string]bool
 }
 
 // NewCtx prepares shared tables.
@@ -354,6 +356,8 @@ type Wire struct {
 	Handler *ssa.Function // resolved handler body (method or closure), may be nil
 	Name    string
 	In      *ssa.Function
+	// Conditional: In can complete successfully without performing this registration
+	Conditional bool
 }
 
 func (c *Ctx) buildWiring() {
@@ -361,6 +365,16 @@ func (c *Ctx) buildWiring() {
 		for _, call := range CallsTo(fn, fnBefore, fnAfter) {
 			w := Wire{Call: call, Before: Callee(call) == fnBefore, In: fn}
 			w.Handler, w.Name = c.resolveFuncValue(Arg(call, 2))
+			// a registration that a successful Init/Setup can skip (it depends on
+			// which other modules happen to be loaded already, on a flag, ...) is
+			// not something the flows can rely on
+			if _, isDefer := call.(*ssa.Defer); !isDefer {
+				q := PathQuery{StartBlock: fn.Blocks[0], Cut: func(i ssa.Instruction) bool { return i == call.(ssa.Instruction) }, Goal: func(i ssa.Instruction) bool {
+					ret, ok := i.(*ssa.Return)
+					return ok && !c.isErrorExit(ret)
+				}}
+				w.Conditional = q.Find() != nil
+			}
 			if v, ok := ConstInt(Arg(call, 1)); ok {
 				w.Event, w.Const = v, true
 			} else if cs := constSet(Arg(call, 1)); len(cs) > 0 {
@@ -415,6 +429,19 @@ func (c *Ctx) Handlers(before bool, event int64) []Wire {
 	var out []Wire
 	for _, w := range c.wiring {
 		if w.Before == before && w.Const && w.Event == event {
+			if w.Conditional {
+				// not counted as registered; say so once per site and property
+				key := FuncName(w.In) + c.P.InstrPos(w.Call)
+				if !c.condReported[key] {
+					if c.condReported == nil {
+						c.condReported = map[string]bool{}
+					}
+					c.condReported[key] = true
+					phase := map[bool]string{true: "Before", false: "After"}[before]
+					c.R.Info("wiring", FuncName(w.In), phase+"("+c.EventName(event)+")->"+w.Name, c.P.InstrPos(w.Call), "registration is conditional (the function can succeed without it): not counted as registered")
+				}
+				continue
+			}
 			out = append(out, w)
 		}
 	}
